@@ -754,7 +754,9 @@ impl World for SddWorld {
             w[k] = if c.below(5) == 0 { 0 } else { base[k] * (1 + c.below(3) as u32) };
         }
         w[K_VAR as usize] = w[K_VAR as usize].max(4);
-        let len = 8 + o.below(if thorough { 150 } else { 70 });
+        // one compressing run in 300 is a marathon: thousands of operations on ONE builder
+        let marathon = compress && c.below(300) == 0;
+        let len = if marathon { 1_500 + o.below(4_500) } else { 8 + o.below(if thorough { 150 } else { 70 }) };
         let mut ops = Vec::new();
         for _ in 0..len {
             let caller = s.below(ncallers) as u8;
